@@ -6,6 +6,9 @@ pub fn run(report: &Report) {
     report.require("representation_comparisons");
     report.require("models_built");
     super::mfamily::run(report, "C05");
+    super::pyfront::sweep(report, "representations", if report.tier == crate::report::Tier::Quick { 0 } else { 1 },
+        "Python front end: a concrete model, the same model with one parameter delayed to the coder call (either one), and with all parameters delayed, are one model: QuantizedGaussian / Laplace / Cauchy (2 supports x 4-7 locations x 3-5 scales x 5 representations incl. float32 arrays where exact), Binomial (3 n x 5 p x 4 representations), Bernoulli (incl. the equivalent categorical table), Uniform, Categorical (4 tables x {fast, perfect, lazy} x {f32, f64}): identical words on the ANS and the range coder for every message of length 1..3 over 3-4 symbols",
+        &[], &[]);
 }
 
 pub fn replay(case: &serde_json::Value) -> Result<String, String> {
